@@ -437,6 +437,7 @@ func serverUpgraderRules(c *Ctx, prop string) {
 		// pool discipline on every path
 		var pool []string
 		last := ""
+		afterPut := ""
 		for _, e := range p.Effects {
 			if e.Kind != "call" {
 				continue
@@ -444,6 +445,12 @@ func serverUpgraderRules(c *Ctx, prop string) {
 			switch e.Name {
 			case "GetReader", "GetWriter", "PutReader", "PutWriter":
 				pool = append(pool, e.Name)
+			}
+			// what the callbacks returned and what is still to be written may point into the pooled
+			// buffers (the Custom selectors are documented as zero-copy): nothing but the other Put
+			// may follow a Put
+			if len(pool) > 0 && strings.HasPrefix(pool[len(pool)-1], "Put") && !strings.HasPrefix(e.Name, "Put") && afterPut == "" {
+				afterPut = e.Name + " after " + pool[len(pool)-1]
 			}
 			last = e.Name
 		}
@@ -455,6 +462,8 @@ func serverUpgraderRules(c *Ctx, prop string) {
 			problems = append(problems, fmt.Sprintf("pooled buffers: %v (each Get needs exactly one Put on every path)", pool))
 		} else if !strings.HasPrefix(last, "Put") {
 			problems = append(problems, "a pooled buffer is used after it was put back ("+last+" after Put)")
+		} else if afterPut != "" {
+			problems = append(problems, "a pooled handshake buffer is put back while the handshake still runs ("+afterPut+"): values that point into it - the request's header values, the results of the zero-copy selectors - are used after another connection may have taken it "+desc)
 		}
 	}
 	if successes == 0 {
